@@ -30,7 +30,9 @@ func enumStrings(alpha []string, maxLen int, f func(string)) {
 
 // Delimiter sequences of the text formats; embedded into ids and texts by the near-miss generators.
 var delimSeqs = []string{"\"@[", "\"@[]", "\"^^type:", "\"^^type:text", "\"^^type:int64", ">\t\"", "]\t/", "]\t\"", "] \"",
-	"> \"", "<", ">", "\"", "\\\"", "\\", "@[", "]", "[", "^^", "type:", "/", "_:", "\t", "\n", "\r", "\r\n", " ", "\x00", "é", "世界", "😀"}
+	"> \"", "<", ">", "\"", "\\\"", "\\", "@[", "]", "[", "^^", "type:", "/", "_:", "\t", "\n", "\r", "\r\n", " ", "\x00", "é", "世界", "😀",
+	// spellings an escaping scheme for line breaks / quotes / delimiters would give a meaning to
+	"\\n", "\\r", "\\t", "\\\\", "\\\\n", "\\u000a", "\\x0a", "\\0", "%0A", "%22", "&#10;", "&quot;", "\\N", "\\\n"}
 
 func int64Boundaries() []int64 {
 	m := map[int64]bool{0: true, 1: true, -1: true, math.MaxInt64: true, math.MinInt64: true, math.MaxInt64 - 1: true,
